@@ -132,15 +132,25 @@ class RequestHandlerBase(MethodView):
         start_str, end_str = http_range[6:].split('-')
 
         if start_str == '':
+            # suffix-byte-range-spec: the last "amount" bytes. A suffix that
+            # is longer than the resource selects the whole resource
             amount: int = int(end_str, 10)
-            start = content_length - amount
+            start = max(0, content_length - amount)
             end = content_length - 1
+            if amount == 0:
+                # not satisfiable
+                start = content_length
         else:
             start = int(start_str, 10)
             if end_str == '':
                 end = content_length - 1
             else:
                 end = int(end_str, 10)
+                if end < start:
+                    raise ValueError('last-byte-pos is less than first-byte-pos')
+                # a last-byte-pos beyond the end of the resource means
+                # "up to the end of the resource" (RFC 7233 section 2.1)
+                end = min(end, content_length - 1)
 
         status: int = 206
         headers: dict[str, str] = {
